@@ -222,3 +222,111 @@ def multi(names, dep, fail_at=None, save_when=None, rec=None, step_hook=None, re
     Multi.save_when = immutabledict(save_when or {a: strax.SaveWhen.ALWAYS, b: strax.SaveWhen.ALWAYS})
     Multi.rechunk_on_save = rechunk_on_save
     return Multi
+
+
+def filt(name, dep, rec=None, step_hook=None, save_when=strax.SaveWhen.ALWAYS, rechunk_on_save=True):
+    """Filtering plugin to a new data kind: rows with odd v, v' = v + 10."""
+    class Filt(strax.Plugin):
+        dtype = ROW
+        parallel = False
+
+        def compute(self, **kw):
+            (x,) = [v for k, v in kw.items() if k not in ("start", "end", "chunk_i")]
+            if rec is not None:
+                rec.add(name, len(x))
+            y = x[x["v"] % 2 == 1]
+            r = np.zeros(len(y), dtype=ROWDT)
+            r["time"], r["endtime"], r["v"] = y["time"], strax.endtime(y), y["v"] + 10
+            return r
+    Filt.__name__ = "Filt_" + name
+    Filt.provides = (name,)
+    Filt.depends_on = (dep,)
+    Filt.data_kind = name
+    Filt.save_when = save_when
+    Filt.rechunk_on_save = rechunk_on_save
+    return Filt
+
+
+def loop(name, base_dep, things_dep, base_kind, things_kind, rec=None, save_when=strax.SaveWhen.ALWAYS, rechunk_on_save=True):
+    """LoopPlugin over base intervals: v = number of things fully contained in the base interval."""
+    class Loop(strax.LoopPlugin):
+        dtype = ROW
+        parallel = False
+        loop_over = base_kind
+
+        def compute_loop(self, base, **kw):
+            (things,) = kw.values()
+            return dict(time=base["time"], endtime=base["endtime"], v=len(things))
+    Loop.__name__ = "Loop_" + name
+    Loop.provides = (name,)
+    Loop.depends_on = (base_dep, things_dep)
+    Loop.data_kind = name
+    Loop.save_when = save_when
+    Loop.rechunk_on_save = rechunk_on_save
+    return Loop
+
+
+def overlap(name, dep, wl, wr, rec=None, save_when=strax.SaveWhen.ALWAYS, rechunk_on_save=True):
+    """OverlapWindowPlugin: v = number of rows lying wholly within [t - wl, e + wr]."""
+    class OW(strax.OverlapWindowPlugin):
+        dtype = ROW
+
+        def get_window_size(self):
+            return (wl, wr)
+
+        def compute(self, **kw):
+            (x,) = [v for k, v in kw.items() if k not in ("start", "end", "chunk_i")]
+            t, e = x["time"], strax.endtime(x)
+            r = np.zeros(len(x), dtype=ROWDT)
+            r["time"], r["endtime"] = t, e
+            r["v"] = [np.sum((t >= t[i] - wl) & (e <= e[i] + wr)) for i in range(len(x))]
+            return r
+    OW.__name__ = "OW_" + name
+    OW.provides = (name,)
+    OW.depends_on = (dep,)
+    OW.data_kind = name
+    OW.save_when = save_when
+    OW.rechunk_on_save = rechunk_on_save
+    return OW
+
+
+def down(name, dep, vname="v", rec=None, save_when=strax.SaveWhen.ALWAYS, rechunk_on_save=False):
+    """DownChunkingPlugin: identity on the rows, every input chunk is cut in two at an admissible time near the middle."""
+    class Down(strax.DownChunkingPlugin):
+        dtype = ROW
+
+        def compute(self, start, end, **kw):
+            (x,) = kw.values()
+            r = np.zeros(len(x), dtype=ROWDT)
+            r["time"], r["endtime"], r["v"] = x["time"], strax.endtime(x), x[vname]
+            mid = (start + end) // 2
+            ok = [u for u in range(start, end + 1) if not np.any((r["time"] < u) & (r["endtime"] > u))]
+            cut = min(ok, key=lambda u: abs(u - mid))
+            yield self.chunk(start=start, end=cut, data=r[r["endtime"] <= cut])
+            yield self.chunk(start=cut, end=end, data=r[r["time"] >= cut])
+    Down.__name__ = "Down_" + name
+    Down.provides = (name,)
+    Down.depends_on = (dep,)
+    Down.data_kind = name
+    Down.save_when = save_when
+    Down.rechunk_on_save = rechunk_on_save
+    return Down
+
+
+def exhaust(name, dep, vname="v", rec=None, save_when=strax.SaveWhen.ALWAYS, rechunk_on_save=False):
+    """ExhaustPlugin: a global function of the whole run: every row gets v = total number of rows."""
+    class Exh(strax.ExhaustPlugin):
+        dtype = ROW
+
+        def compute(self, **kw):
+            (x,) = [v for k, v in kw.items() if k not in ("start", "end", "chunk_i")]
+            r = np.zeros(len(x), dtype=ROWDT)
+            r["time"], r["endtime"], r["v"] = x["time"], strax.endtime(x), len(x)
+            return r
+    Exh.__name__ = "Exh_" + name
+    Exh.provides = (name,)
+    Exh.depends_on = (dep,)
+    Exh.data_kind = name
+    Exh.save_when = save_when
+    Exh.rechunk_on_save = rechunk_on_save
+    return Exh
